@@ -293,9 +293,14 @@ class Point(object):
                 raise ValueError("The PEP must be solved to evaluate Points!")
             # If linear combination, combine the values of the leaf, and store the result before returning it.
             else:
-                value = np.zeros(Point.counter)
+                # Leaf values have the dimension of the problem that was solved,
+                # which may differ from Point.counter if leaf points were created since then.
+                value = None
                 for point, weight in self.decomposition_dict.items():
-                    value += weight * point.eval()
+                    term = weight * point.eval()
+                    value = term if value is None else value + term
+                if value is None:
+                    value = np.zeros(Point.counter)
                 self._value = value
 
         return self._value
